@@ -775,7 +775,7 @@ def run(ck):
     ck.gate_static()
     signature_check(ck)
 
-    n = ck.n(440, 7200)
+    n = ck.n(380, 7200)
     cases = [dict(c) for c in CORPUS]
     while len(cases) < n:
         cases.append(gen_case(ck.rng, long=(ck.rng.random() < 0.15)))
@@ -789,12 +789,21 @@ def run(ck):
         mode = schemagen.validate_mode(ck)
         Sx = schemagen.translate_schema(ck)
         if Sx is not None:
-            tables_ok = bool(schemagen.gen_validate(ck, tab, mode) and schemagen.gen_schema(ck, Sx) and bindings.gen_bindings(ck, tab))
+            from concurrent.futures import ThreadPoolExecutor
+            with ThreadPoolExecutor(3) as ex:      # three independent coqc runs
+                futs = [ex.submit(schemagen.gen_validate, ck, tab, mode), ex.submit(schemagen.gen_schema, ck, Sx),
+                        ex.submit(bindings.gen_bindings, ck, tab)]
+                tables_ok = all(bool(f.result()) for f in futs)
         TT = bindings.Tables(tab)
         tree_order = {k: TT.field_order(k) for k in TREE_CLASSES if k in TT.C}
+    # instance obligations: what Proofs/BuilderTreeP.v assumes about the 16 classes / simple types holds of these tables
+    inst_ok = False
+    if tables_ok:
+        inst = ck.gen_v("Inst_C15.v", open(os.path.join(os.path.dirname(os.path.abspath(__file__)), "c15_inst.v")).read())
+        inst_ok, _ = ck.compile_obligations(inst, kind="instance", timeout=900)
     ntree = 0
     for i, c in enumerate(cases):
-        if tree_order and tree_eligible(c) and (c["kind"].startswith("corpus") or i % 3 == 0):
+        if tree_order and tree_eligible(c) and (c["kind"].startswith("corpus") or i % ck.n(4, 3) == 0):
             c["tree"] = True
     payload = [{"init": c["init"], "ops": c["ops"], "tree": bool(c.get("tree"))} for c in cases]
     results = []
@@ -804,9 +813,22 @@ def run(ck):
     any_bad = False
     v0 = True
     chunk = 240
+    # all generated files are compiled side by side
+    titems = [(c, r) for c, r in zip(cases, results) if r["final"] and isinstance(r["final"].get("tree"), dict)
+              and "cls" in r["final"]["tree"]]
+    jobs = [("Cases_C15_%d.v" % (k // chunk), cases_v(cases[k:k + chunk], results[k:k + chunk])) for k in range(0, len(cases), chunk)]
+    tree_err = {}
+    for k in range(0, len(titems), 150):
+        try:
+            jobs.append(("Trees_C15_%d.v" % (k // 150), trees_v(titems[k:k + 150])))
+        except ValueError as e:
+            tree_err[k] = str(e)
+    from concurrent.futures import ThreadPoolExecutor
+    with ThreadPoolExecutor(6) as ex:
+        evals = dict(zip([j[0] for j in jobs], ex.map(lambda j: ck.coq_eval(j[0], j[1], timeout=900), jobs)))
     for k in range(0, len(cases), chunk):
         cs, rs = cases[k:k + chunk], results[k:k + chunk]
-        ok, res, out = ck.coq_eval("Cases_C15_%d.v" % (k // chunk), cases_v(cs, rs), timeout=900)
+        ok, res, out = evals["Cases_C15_%d.v" % (k // chunk)]
         good = ok and len(res) == 3 and parse_idx(res[0]) == []
         ck.oblige("Cases_C15_%d.v:model_agrees_with_implementation" % (k // chunk), good,
                   detail=(out[-1500:] if not ok else "differing case indices: %s" % (res[0] if res else "none")),
@@ -826,16 +848,12 @@ def run(ck):
     ck.extra["implementation_matches_prefix_model_v0"] = bool(v0 and any_bad)
 
     # ---- the finished real cell as a component tree = cell_tree of the model's final state
-    titems = [(c, r) for c, r in zip(cases, results) if r["final"] and isinstance(r["final"].get("tree"), dict)
-              and "cls" in r["final"]["tree"]]
     for k in range(0, len(titems), 150):
         chunk_t = titems[k:k + 150]
-        try:
-            text = trees_v(chunk_t)
-        except ValueError as e:
-            ck.oblige("Trees_C15_%d.v:cell_tree_equals_dumped_cell" % (k // 150), False, str(e), kind="correspondence")
+        if k in tree_err:
+            ck.oblige("Trees_C15_%d.v:cell_tree_equals_dumped_cell" % (k // 150), False, tree_err[k], kind="correspondence")
             continue
-        ok, res, out = ck.coq_eval("Trees_C15_%d.v" % (k // 150), text, timeout=900)
+        ok, res, out = evals["Trees_C15_%d.v" % (k // 150)]
         good = ok and len(res) == 1 and parse_idx(res[0]) == []
         ck.oblige("Trees_C15_%d.v:cell_tree_equals_dumped_cell" % (k // 150), good,
                   detail=(out[-1500:] if not ok else "differing tree indices: %s" % (res[0] if res else "none")), kind="correspondence")
@@ -846,7 +864,10 @@ def run(ck):
                             "see model", {"tree": "differs"}, note="tree %d of Trees_C15_%d.v" % (i, k // 150))
     ck.extra["component_trees_compared"] = len(titems)
 
-    ck.compile_props()
+    if inst_ok:
+        ck.compile_props()
+    else:
+        ck.oblige("Props_C15.v:not-compiled", False, "the tables of this run / Inst_C15.v are not available", kind="theorem")
 
     seen = {}
     for c, r in zip(cases, results):
